@@ -40,7 +40,7 @@ fn mix(a: u64, b: u64, c: u64, d: u64) -> u64 {
 // =============================================================================================
 // C17
 
-pub const C17_RULE: &str = "get_range cube: blob lengths L in {0,1,2,3,5,16,4095,4096,4097,8191,8192,8193,65537}; for L<=5 ALL (start,end) in [0,L+2]^2 (exhaustive); for every L all pairs from the boundary set {0,1,L-1,L,L+1,2^32-1,2^32,2^32+1,2^63-1,2^63,2^64-2,2^64-1}; plus proptest-random (L<=100000, edge-biased start/end). Oracle: start<=end => exactly content[min(start,L)..min(end,L)]; start>end and start<L => Err; get_size==L; reader streams L bytes; absent key => Ok(None); no panic; peak heap during get_range <= L + 8 KiB (counting allocator). non-trivial = triple on a face of the cube (start==L, end==L, start==end, end>=2^32, L==0, start>end); distinct by (L,start,end)";
+pub const C17_RULE: &str = "get_range cube: blob lengths L in {0,1,2,3,5,16,4095,4096,4097,8191,8192,8193,65537}; for L<=5 ALL (start,end) in [0,L+2]^2 (exhaustive); for every L all pairs from the boundary set {0,1,L-1,L,L+1,2^32-1,2^32,2^32+1,2^63-1,2^63,2^64-2,2^64-1}; plus proptest-random (L<=100000, edge-biased start/end) and a large part (L in {128Ki,128Ki+1,256Ki,300001,512Ki,1Mi+1} or random in [110000,1.2M]; start/end at fractions of L, around multiples of 64 KiB and 128 KiB, around L and near 0, so that ranges longer than 128 KiB that start and end strictly inside the blob occur in most cases). Oracle: start<=end => exactly content[min(start,L)..min(end,L)]; start>end and start<L => Err; get_size==L; reader streams L bytes; absent key => Ok(None); no panic; peak heap during get_range <= L + 8 KiB (counting allocator). non-trivial = triple on a face of the cube (start==L, end==L, start==end, end>=2^32, L==0, start>end); distinct by (L,start,end)";
 
 #[derive(Clone, Debug, Serialize, Deserialize)]
 pub struct C17Case {
@@ -106,7 +106,10 @@ fn c17_run(case: &C17Case) -> R<CaseMeta> {
             m.nontrivial.push(mix(l, s, e, 17));
         }
     }
-    m.class(&format!("L_{}", if case.len <= 5 { "small" } else if case.len < 8192 { "mid" } else { "big" }));
+    m.class(&format!("L_{}", if case.len <= 5 { "small" } else if case.len < 8192 { "mid" } else if case.len <= 110_000 { "big" } else { "huge" }));
+    if case.pairs.iter().any(|&(s, e)| s <= e && e < l && e - s > 131_072) {
+        m.class("range_gt_128k_ending_inside");
+    }
     Ok(m)
 }
 
@@ -141,7 +144,7 @@ pub fn run_c17(ctx: &Ctx, acc: &Mutex<Acc>) -> Option<Violation> {
     acc.lock().unwrap().exhaustive = false;
     let cases = ctx.tier.scale(300, 10);
     let rv = || prop_oneof![3 => 0u64..20, 3 => 0u64..110_000, 1 => Just(u64::MAX), 1 => Just(1u64 << 32), 1 => any::<u64>()];
-    campaign(
+    let first = campaign(
         ctx,
         acc,
         "random",
@@ -159,6 +162,38 @@ pub fn run_c17(ctx: &Ctx, acc: &Mutex<Acc>) -> Option<Violation> {
                     }
                     C17Case { len, pairs }
                 })
+        },
+        c17_run,
+    );
+    if first.is_some() {
+        return first;
+    }
+    // large blobs: ranges longer than any plausible internal buffer, starting and ending strictly inside
+    let cases = ctx.tier.scale(40, 10);
+    campaign(
+        ctx,
+        acc,
+        "random-large",
+        "C17",
+        cases,
+        60,
+        move |_| {
+            let around = |base: u64| (0u64..3, Just(base)).prop_map(|(d, b)| (b + d).saturating_sub(1));
+            (prop_oneof![Just(131_072usize), Just(131_073usize), Just(262_144usize), Just(300_001usize), Just(524_288usize), Just(1_048_577usize), 110_000usize..1_200_000], vec((0u64..1000, 0u64..1000, 0u8..6, 0u8..6), 6..16)).prop_flat_map(move |(len, raw)| {
+                let l = len as u64;
+                let pt = move |permille: u64, kind: u8| -> BoxedStrategy<u64> {
+                    match kind {
+                        0 => Just(l * permille / 1000).boxed(),
+                        1 => around(65_536 * (1 + permille % 16)).boxed(),
+                        2 => around(l).boxed(),
+                        3 => Just(permille % 3).boxed(),
+                        4 => around(131_072 * (1 + permille % 8)).boxed(),
+                        _ => Just(l.saturating_sub(permille * 9)).boxed(),
+                    }
+                };
+                let pairs: Vec<BoxedStrategy<(u64, u64)>> = raw.iter().map(|&(a, b, ka, kb)| (pt(a, ka), pt(b, kb)).prop_map(|(x, y)| if x <= y || (x + y) % 5 == 0 { (x, y) } else { (y, x) }).boxed()).collect();
+                pairs.prop_map(move |pairs| C17Case { len, pairs })
+            })
         },
         c17_run,
     )
@@ -344,6 +379,223 @@ pub fn run_c19(ctx: &Ctx, acc: &Mutex<Acc>) -> Option<Violation> {
 
 pub fn replay_c19(case: serde_json::Value) -> R<CaseMeta> {
     c19_run(&serde_json::from_value(case).expect("harness: bad C19 case"))
+}
+
+
+// ---------------------------------------------------------------------------------------------
+// C19 — generated histories on a pre-created tree versus an on-demand tree
+
+pub const C19_PRE_RULE: &str = "pre-creation histories: a generated history (puts of 6 contents on 6 keys, removes, range removes, checkpoints, reopens passing either value of pre_create_cas_dirs, and orphan episodes: the store is closed, a blob file of a pool content that is currently unreferenced is planted at its canonical path - what a crash between the blob rename and the log append leaves -, the store is opened with open_with_recover and delete_orphans / quarantine_orphans / delete_orphan runs; later steps put that same content again) is run once on a store created with pre_create_cas_dirs=true and once on one created with false. Oracle: the two runs are indistinguishable through the API and in the set of blob files: every step has the same outcome (Ok or the same error), and after every step the index state and all reads - and after orphan episodes, removals, every 8th step and the last step the list of regular files under cas/ - agree with each other (and with the model while no step failed). non-trivial = history with an orphan episode followed by a put of the planted content, or with a reopen that passes the other flag value; distinct by case hash; histories in which a step fails identically in both runs are discarded (counted)";
+
+#[derive(Clone, Debug, Serialize, Deserialize)]
+pub enum PStep {
+    Put { k: u8, c: u8 },
+    Remove { k: u8 },
+    RemoveRange { a: u8, b: u8 },
+    Checkpoint,
+    Reopen { other_flag: bool },
+    /// plant content c as an orphan (if unreferenced), reopen with recovery, run action 0 delete_orphans / 1 quarantine_orphans / 2 delete_orphan
+    Orphan { c: u8, action: u8 },
+}
+
+#[derive(Clone, Debug, Serialize, Deserialize)]
+pub struct C19PCase {
+    pub steps: Vec<PStep>,
+}
+
+fn c19p_content(c: u8) -> Vec<u8> {
+    const LENS: [usize; 6] = [0, 1, 5, 100, 5000, 20_000];
+    gen_content(40 + c as u64, LENS[c as usize % 6])
+}
+
+type C19PObs = (String, BTreeMap<u64, ([u8; 32], u64)>, Vec<Option<usize>>, Vec<String>);
+
+fn c19p_one(case: &C19PCase, pre: bool) -> R<(Vec<C19PObs>, bool, bool, bool)> {
+    let cfgp = |pre: bool| Config { pre_create_cas_dirs: pre, ..cfg_n(3, true) };
+    let scratch = Scratch::new("c19h");
+    let db = scratch.db();
+    let mut cas = Some(Cas::<u64>::open(&db, cfgp(pre)).map_err(|e| Fail::new("settings/create-fails", format!("pre_create_cas_dirs={pre}: {e:?}")))?);
+    let mut model: BTreeMap<u64, Vec<u8>> = BTreeMap::new();
+    let mut model_ok = true;
+    let mut obs = Vec::new();
+    let mut planted: std::collections::BTreeSet<u8> = Default::default();
+    let mut put_after_orphan = false;
+    let mut other_flag_reopen = false;
+    let es = |e: &LibError| format!("err:{}", err_path(e));
+    for (i, st) in case.steps.iter().enumerate() {
+        let outcome: String = match st {
+            PStep::Put { k, c } => {
+                let content = c19p_content(*c);
+                let h = cas.as_ref().unwrap();
+                let r = (|| -> Result<(), LibError> {
+                    let mut tx = h.put(*k as u64)?;
+                    tx.write(&content).map_err(|e| LibError::Io { operation: cassadilia::LibIoOperation::WriteStagingFile, path: None, source: std::io::Error::other(format!("{e:?}")) })?;
+                    tx.finish()
+                })();
+                match r {
+                    Ok(()) => {
+                        if planted.contains(&(*c % 6)) {
+                            put_after_orphan = true;
+                        }
+                        model.insert(*k as u64, content);
+                        "ok".into()
+                    }
+                    Err(e) => {
+                        model_ok = false;
+                        es(&e)
+                    }
+                }
+            }
+            PStep::Remove { k } => match cas.as_ref().unwrap().remove(&(*k as u64)) {
+                Ok(_) => {
+                    model.remove(&(*k as u64));
+                    "ok".into()
+                }
+                Err(e) => {
+                    model_ok = false;
+                    es(&e)
+                }
+            },
+            PStep::RemoveRange { a, b } => {
+                let (lo, hi) = (*a.min(b) as u64, *a.max(b) as u64);
+                match cas.as_ref().unwrap().remove_range(lo..=hi) {
+                    Ok(_) => {
+                        model.retain(|k, _| *k < lo || *k > hi);
+                        "ok".into()
+                    }
+                    Err(e) => {
+                        model_ok = false;
+                        es(&e)
+                    }
+                }
+            }
+            PStep::Checkpoint => match cas.as_ref().unwrap().checkpoint() {
+                Ok(_) => "ok".into(),
+                Err(e) => es(&e),
+            },
+            PStep::Reopen { other_flag } => {
+                cas = None;
+                if *other_flag {
+                    other_flag_reopen = true;
+                }
+                match Cas::<u64>::open(&db, cfgp(pre ^ *other_flag)) {
+                    Ok(c) => {
+                        cas = Some(c);
+                        "ok".into()
+                    }
+                    Err(e) => {
+                        obs.push((format!("step {i} reopen {}", es(&e)), BTreeMap::new(), vec![], vec![]));
+                        return Ok((obs, false, put_after_orphan, other_flag_reopen));
+                    }
+                }
+            }
+            PStep::Orphan { c, action } => {
+                cas = None;
+                let content = c19p_content(*c);
+                let h = b3(&content);
+                let live = model.values().any(|v| b3(v) == h);
+                if !live {
+                    let p = db.join("cas").join(rel_path_of(&h));
+                    std::fs::create_dir_all(p.parent().unwrap()).expect("harness: mkdir");
+                    std::fs::write(&p, &content).expect("harness: plant orphan");
+                    planted.insert(*c % 6);
+                }
+                match Cas::<u64>::open_with_recover(&db, cfgp(pre)) {
+                    Ok((c2, Some(stats))) => {
+                        cas = Some(c2);
+                        let summary = format!("scan o={} i={} m={} c={} s={} t={}", stats.orphaned_blobs.len(), stats.invalid_files.len(), stats.missing_blobs.len(), stats.corrupted_blobs.len(), stats.staging_files.len(), stats.total_blobs);
+                        let r = match action % 3 {
+                            0 => stats.delete_orphans().map(|r| format!("deleted {} errors {}", r.orphans_deleted, r.errors.len())),
+                            1 => stats.quarantine_orphans(&scratch.path.join(format!("quarantine{i}"))).map(|r| format!("quarantined {} errors {}", r.orphans_quarantined, r.errors.len())),
+                            _ => stats.delete_orphan(&BlobHash::from_bytes(h)).map(|b| format!("delete_orphan {b}")),
+                        };
+                        match r {
+                            Ok(x) => format!("{summary}; {x}"),
+                            Err(e) => format!("{summary}; {}", es(&e)),
+                        }
+                    }
+                    Ok((_, None)) => panic!("harness: no OrphanStats although scanning was requested"),
+                    Err(e) => {
+                        obs.push((format!("step {i} open_with_recover {}", es(&e)), BTreeMap::new(), vec![], vec![]));
+                        return Ok((obs, false, put_after_orphan, other_flag_reopen));
+                    }
+                }
+            }
+        };
+        let h = cas.as_ref().unwrap();
+        let st_now = c19_state(h);
+        if model_ok && outcome.starts_with("ok") {
+            let exp: BTreeMap<u64, ([u8; 32], u64)> = model.iter().map(|(k, v)| (*k, (b3(v), v.len() as u64))).collect();
+            if st_now != exp {
+                fail!("settings/pre-state-differs", "pre_create_cas_dirs={pre}: after step {i} ({st:?}) the index state differs from the model");
+            }
+        }
+        let reads: Vec<Option<usize>> = (0..6u64).map(|k| h.get(&k).ok().flatten().map(|b| b.len())).collect();
+        // walking a pre-created tree costs 65 536 directory reads: list the blob files after orphan episodes,
+        // after removals (unlinks), at every 8th step and at the end
+        let list = matches!(st, PStep::Orphan { .. } | PStep::Remove { .. } | PStep::RemoveRange { .. }) || i % 8 == 7 || i + 1 == case.steps.len();
+        let files: Vec<String> = if list { list_files(&db.join("cas")).into_keys().collect() } else { vec![] };
+        obs.push((format!("step {i} {outcome}"), st_now, reads, files));
+    }
+    Ok((obs, model_ok, put_after_orphan, other_flag_reopen))
+}
+
+fn c19p_run(case: &C19PCase) -> R<CaseMeta> {
+    let mut m = CaseMeta { evals: 2, ..Default::default() };
+    let (a, ok_a, pao, ofr) = c19p_one(case, true)?;
+    let (b, ok_b, _, _) = c19p_one(case, false)?;
+    for (i, (x, y)) in a.iter().zip(b.iter()).enumerate() {
+        if x != y {
+            let what = if x.0 != y.0 {
+                format!("outcome '{}' on the pre-created store, '{}' on the on-demand store", x.0, y.0)
+            } else if x.1 != y.1 {
+                "index states differ".to_string()
+            } else if x.2 != y.2 {
+                format!("reads differ: {:?} vs {:?}", x.2, y.2)
+            } else {
+                format!("blob file sets differ: {} vs {} files", x.3.len(), y.3.len())
+            };
+            fail!("settings/pre-observable-difference", "the same history behaves differently on a store created with pre_create_cas_dirs=true and on one created with false, at observation {i} ({:?}): {what}", case.steps.get(i));
+        }
+    }
+    if a.len() != b.len() {
+        fail!("settings/pre-observable-difference", "the same history ends after {} observations on the pre-created store and after {} on the on-demand store", a.len(), b.len());
+    }
+    if !ok_a || !ok_b || a.len() < case.steps.len() {
+        // a step failed identically in both runs: not a matter of this property
+        m.discarded = true;
+        return Ok(m);
+    }
+    if pao {
+        m.class("put_of_content_after_its_orphan_was_cleaned");
+    }
+    if ofr {
+        m.class("reopen_with_other_flag");
+    }
+    if pao || ofr {
+        m.nontrivial.push(hash_json(case));
+    }
+    Ok(m)
+}
+
+pub fn run_c19_pre_histories(ctx: &Ctx, acc: &Mutex<Acc>) -> Option<Violation> {
+    let cases = ctx.tier.scale(1, 8);
+    let strat = || {
+        let step = prop_oneof![
+            8 => (0u8..6, 0u8..6).prop_map(|(k, c)| PStep::Put { k, c }),
+            2 => (0u8..6).prop_map(|k| PStep::Remove { k }),
+            1 => (0u8..6, 0u8..6).prop_map(|(a, b)| PStep::RemoveRange { a, b }),
+            1 => Just(PStep::Checkpoint),
+            1 => any::<bool>().prop_map(|other_flag| PStep::Reopen { other_flag }),
+            3 => (0u8..6, 0u8..3).prop_map(|(c, action)| PStep::Orphan { c, action }),
+        ];
+        vec(step, 4..40).prop_map(|steps| C19PCase { steps })
+    };
+    campaign(ctx, acc, "pre-create-histories", "C19P", cases, 16, |_| strat(), c19p_run)
+}
+
+pub fn replay_c19p(case: serde_json::Value) -> R<CaseMeta> {
+    c19p_run(&serde_json::from_value(case).expect("harness: bad C19P case"))
 }
 
 // =============================================================================================
@@ -644,7 +896,7 @@ pub fn replay_c10(case: serde_json::Value) -> R<CaseMeta> {
 // =============================================================================================
 // C16
 
-pub const C16_RULE: &str = "codecs: (a) structured round-trips — WalOpRaw and WalOp<K> for K in {String, Vec<u8>, [u8;3], u64, i32, u8, i128} (pool keys, arbitrary bytes 0-300, a 70000-byte key, Remove lists of 0-40 keys incl. empty keys and duplicates), index snapshots (0-60 entries, version None/1/u64::MAX, sizes 0/2^32/2^64-1), every KeyBytes impl (u8/i8 exhaustively, edges+random for wider ints, arrays, String incl. multi-byte, Vec); (b) bytes — ALL strings of length <=2 exhaustively, random bytes up to 4 KiB, and mutations of valid encodings (truncation at every offset, every length/count field bumped to n+-1, 2^31, 2^32-1, tag flips) fed to the op decoder, the snapshot decoder, WalOp::from_raw, BlobHash::from_hex/from_relative_path, the framed segment reader and (as files) Cas::open. Oracle: decode(encode(v)) == v; decoders return Ok/Err and never panic (overflow checks on); Ok(v) re-encodes and re-decodes to v; peak heap of the op and snapshot decoders <= 64 x input length + 4 KiB (counting allocator; a with_capacity(count) on an input-controlled count fails this by orders of magnitude). non-trivial = structured value with a non-empty key (and >=2 keys for Remove), or a byte string that decodes successfully or is a mutation of a valid encoding; distinct by content hash";
+pub const C16_RULE: &str = "codecs: (a) structured round-trips — WalOpRaw and WalOp<K> for K in {String, Vec<u8>, [u8;3], u64, i32, u8, i128} (pool keys, arbitrary bytes 0-300, a 70000-byte key, Remove lists of 0-40 keys incl. empty keys and duplicates), index snapshots (0-60 entries of byte keys, version None/1/u64::MAX, sizes 0/2^32/2^64-1) and TYPED index snapshots (maps keyed by each of u8..u128/i8..i128, Vec<u8>, [u8;3], String — written in the key type's order, which differs from the order of the encoded bytes for integers; all ordered pairs from an edge set of 12 integers exhaustively, 0-24 random entries beyond), every KeyBytes impl (u8/i8 exhaustively, edges+random for wider ints, arrays, String incl. multi-byte, Vec); (b) bytes — ALL strings of length <=2 exhaustively, random bytes up to 4 KiB, and mutations of valid encodings (truncation at every offset, every length/count field bumped to n+-1, 2^31, 2^32-1, tag flips) fed to the op decoder, the snapshot decoder, WalOp::from_raw, BlobHash::from_hex/from_relative_path, the framed segment reader and (as files) Cas::open. Oracle: decode(encode(v)) == v; decoders return Ok/Err and never panic (overflow checks on); Ok(v) re-encodes and re-decodes to v; peak heap of the op and snapshot decoders <= 64 x input length + 4 KiB (counting allocator; a with_capacity(count) on an input-controlled count fails this by orders of magnitude). non-trivial = structured value with a non-empty key (and >=2 keys for Remove), or a byte string that decodes successfully or is a mutation of a valid encoding; distinct by content hash";
 
 #[derive(Clone, Debug, Serialize, Deserialize)]
 pub enum C16Case {
@@ -655,6 +907,8 @@ pub enum C16Case {
     Mut { snap: bool, keys: Vec<Vec<u8>>, sel: u16, val: u8 },
     Path { s: String },
     Key { bytes: Vec<u8>, n: i128 },
+    /// snapshot of a typed map: every integer key type gets the keys `n as K`; String/Vec/[u8;3] get keys built from n
+    SnapTyped { version: u64, entries: Vec<(i128, u8, u64)> },
 }
 
 fn hash_of(seed: u8) -> [u8; 32] {
@@ -744,6 +998,52 @@ fn typed_roundtrip<K: HKey>(raw: &WalOpRaw) -> R<bool> {
             }
         }
     }
+}
+
+/// A snapshot is written from a map ordered by `K: Ord` (which is not the order of the encoded bytes for
+/// integers); it must decode to exactly the entries that went in, for every key type.
+fn snap_typed<K: HKey>(version: u64, entries: &[(K, u8, u64)]) -> R<usize> {
+    let mut map: BTreeMap<K, cassadilia::IndexStateItem> = BTreeMap::new();
+    for (k, hs, sz) in entries {
+        map.insert(k.clone(), cassadilia::IndexStateItem { blob_hash: BlobHash::from_bytes(hash_of(*hs)), blob_size: *sz });
+    }
+    let ver = NonZeroU64::new(version);
+    let enc = cassadilia::verif::serialize_index_state(&map, ver);
+    let ind = ondisk::encode_snapshot(version, &map.iter().map(|(k, i)| (k.to_key_bytes_owned(), *i.blob_hash.as_bytes(), i.blob_size)).collect::<Vec<_>>());
+    if enc != ind {
+        fail!("codec/snapshot-encoding-differs-from-format", "snapshot encoder output differs from the documented format for key type {}", K::NAME);
+    }
+    let (res, peak, _) = measure(|| catch_unwind(AssertUnwindSafe(|| cassadilia::verif::deserialize_index_state(&enc))));
+    let res = match res {
+        Ok(r) => r,
+        Err(_) => {
+            let (msg, loc) = take_panic();
+            fail!("codec/snapshot-decoder-panic", "snapshot decoder panicked on a valid snapshot with {} keys: {msg} at {loc}", K::NAME);
+        }
+    };
+    if peak > alloc_bound(enc.len()) {
+        fail!("codec/snapshot-decoder-allocation", "snapshot decoder allocated {peak} bytes for {} input bytes", enc.len());
+    }
+    let (raw, v2) = match res {
+        Ok(x) => x,
+        Err(e) => fail!("codec/snapshot-roundtrip", "a snapshot of {} entries with {} keys written by the encoder is rejected by the decoder: {e}", map.len(), K::NAME),
+    };
+    if v2 != ver {
+        fail!("codec/snapshot-roundtrip", "snapshot version {version} decodes as {v2:?} ({} keys)", K::NAME);
+    }
+    let mut back: BTreeMap<K, cassadilia::IndexStateItem> = BTreeMap::new();
+    for (kb, item) in &raw {
+        match K::from_key_bytes(kb) {
+            Some(k) => {
+                back.insert(k, item.clone());
+            }
+            None => fail!("codec/snapshot-roundtrip", "a key of a decoded snapshot does not parse as {}", K::NAME),
+        }
+    }
+    if back != map || raw.len() != map.len() {
+        fail!("codec/snapshot-roundtrip", "decode(encode(snapshot)) != snapshot for key type {} ({} entries)", K::NAME, map.len());
+    }
+    Ok(map.len())
 }
 
 fn key_roundtrip<K: HKey>(k: &K) -> R<()> {
@@ -1009,6 +1309,25 @@ fn c16_run(case: &C16Case) -> R<CaseMeta> {
             }
             m.class("path");
         }
+        C16Case::SnapTyped { version, entries } => {
+            macro_rules! ints {
+                ($($t:ty),*) => {$(
+                    snap_typed::<$t>(*version, &entries.iter().map(|(n, h, s)| (*n as $t, *h, *s)).collect::<Vec<_>>())?;
+                )*};
+            }
+            ints!(u8, i8, u16, i16, u32, i32, u64, i64, u128, i128);
+            snap_typed::<Vec<u8>>(*version, &entries.iter().map(|(n, h, s)| (n.to_be_bytes()[(*h as usize % 16)..].to_vec(), *h, *s)).collect::<Vec<_>>())?;
+            snap_typed::<[u8; 3]>(*version, &entries.iter().map(|(n, h, s)| ([*n as u8, (*n >> 8) as u8, (*n >> 16) as u8], *h, *s)).collect::<Vec<_>>())?;
+            snap_typed::<String>(*version, &entries.iter().map(|(n, h, s)| (format!("{}{}", if *n < 0 { "\u{e9}" } else { "" }, n), *h, *s)).collect::<Vec<_>>())?;
+            let distinct: std::collections::BTreeSet<i128> = entries.iter().map(|e| e.0).collect();
+            if distinct.len() >= 2 {
+                m.nontrivial.push(id);
+            }
+            if distinct.iter().any(|n| *n < 0) && distinct.iter().any(|n| *n > 0) || distinct.iter().any(|n| *n > 255) {
+                m.class("snapshot_typed_byte_order_differs");
+            }
+            m.class("snapshot_typed");
+        }
         C16Case::Key { bytes, n } => {
             key_roundtrip::<Vec<u8>>(bytes)?;
             if let Ok(s) = String::from_utf8(bytes.clone()) {
@@ -1076,6 +1395,7 @@ pub fn c16_strategy() -> BoxedStrategy<C16Case> {
             ".{0,40}",
         ].prop_map(|s| C16Case::Path { s }),
         2 => (key_bytes_strategy(), prop_oneof![Just(0i128), Just(-1i128), Just(i128::MAX), Just(i128::MIN), Just(255i128), Just(256i128), any::<i128>()]).prop_map(|(bytes, n)| C16Case::Key { bytes, n }),
+        2 => (prop_oneof![Just(0u64), Just(1u64), any::<u64>()], vec((prop_oneof![3 => -300i128..300, 1 => Just(i128::MAX), 1 => Just(i128::MIN), 1 => Just(1i128 << 32), 1 => Just(65_536i128), 2 => any::<i64>().prop_map(|x| x as i128), 2 => any::<i128>()], any::<u8>(), prop_oneof![Just(0u64), Just(u64::MAX), any::<u64>()]), 0..24)).prop_map(|(version, entries)| C16Case::SnapTyped { version, entries }),
     ]
     .boxed()
 }
@@ -1102,6 +1422,12 @@ pub fn run_c16(ctx: &Ctx, acc: &Mutex<Acc>) -> Option<Violation> {
         for k2 in &alpha {
             items.push(C16Case::Op { put: false, keys: vec![k1.clone(), k2.clone()], hash_seed: 0, size: 0 });
             items.push(C16Case::Snap { version: 1, entries: vec![(k1.clone(), 1, 0), (k2.clone(), 2, u64::MAX)] });
+        }
+    }
+    let edge: [i128; 12] = [i128::MIN, i64::MIN as i128, -256, -1, 0, 1, 127, 128, 255, 256, 65_536, i128::MAX];
+    for a in edge {
+        for b in edge {
+            items.push(C16Case::SnapTyped { version: 1, entries: vec![(a, 1, 0), (b, 2, 5)] });
         }
     }
     items.push(C16Case::Op { put: false, keys: vec![], hash_seed: 0, size: 0 });
@@ -1506,13 +1832,16 @@ pub fn gen_corpus(dir: &Path) {
 // =============================================================================================
 // C18 — exhaustive short contents x all chunkings, and the hash <-> path law
 
-pub const C18_EXH_RULE: &str = "exhaustive part: ALL byte strings of length <= 4 over {0x00,0x61,0xFF} (121 contents), each delivered in EVERY composition into non-empty chunks (2^(len-1)) and additionally with an empty chunk inserted at every gap; after finish: get_item == {one-shot blake3, len}, the file sits at the harness-derived path cas/hh/hh/<60 hex> with exactly the bytes, and all chunkings of one content give the same item. Path law: for two base hashes and EVERY byte position x EVERY byte value (16 384 hashes) plus 2 000 random hashes: relative_path has exactly three components of 2/2/60 lowercase hex digits, from_relative_path(relative_path(h)) == h with and without a directory prefix, from_hex(to_hex(h)) == h, and distinct hashes map to distinct paths (set size). non-trivial = content delivered in >=2 chunks or with an empty chunk / hash pair differing in one byte; distinct by (content, chunking) or hash";
+pub const C18_EXH_RULE: &str = "exhaustive part: ALL byte strings of length <= 4 over {0x00,0x61,0xFF} (121 contents), each delivered in EVERY composition into non-empty chunks (2^(len-1)) and additionally with an empty chunk inserted at every gap; after finish: get_item == {one-shot blake3, len}, the file sits at the harness-derived path cas/hh/hh/<60 hex> with exactly the bytes, and all chunkings of one content give the same item. Path law: for two base hashes and EVERY byte position x EVERY byte value (16 384 hashes) plus 2 000 random hashes: relative_path has exactly three components of 2/2/60 lowercase hex digits, from_relative_path(relative_path(h)) == h with and without a directory prefix, from_hex(to_hex(h)) == h, and distinct hashes map to distinct paths (set size). Long contents: lengths 0..1.5 MB (also +-1 around 8 Ki, 16 Ki, 64 Ki, 128 Ki, 256 Ki, 512 Ki, 1 Mi) delivered in chunks cycling through a generated pattern of 0-3 lengths (empty chunks, 1..9000, around 8 Ki/64 Ki/128 Ki, up to 300 000) plus a separately generated final chunk (absent, shorter than 8 KiB, around 8 KiB, or long); same oracle plus get() == content. non-trivial = content delivered in >=2 chunks or with an empty chunk / hash pair differing in one byte; distinct by (content, chunking) or hash";
 
 #[derive(Clone, Debug, Serialize, Deserialize)]
 pub enum C18Case {
     /// content bytes, chunk lengths (0 = empty chunk)
     Chunks { content: Vec<u8>, chunks: Vec<u8> },
     Path { hash: Vec<u8> },
+    /// content gen_content(id, len): the first len - tail bytes are delivered in chunks whose lengths cycle
+    /// through `pattern` (0 = empty chunk), the last `tail` bytes in one final chunk
+    Big { len: u32, id: u8, pattern: Vec<u32>, tail: u32 },
 }
 
 fn c18_run(case: &C18Case) -> R<CaseMeta> {
@@ -1547,6 +1876,66 @@ fn c18_run(case: &C18Case) -> R<CaseMeta> {
             }
             if chunks.len() >= 2 {
                 m.nontrivial.push(hash_json(case));
+            }
+        }
+        C18Case::Big { len, id, pattern, tail } => {
+            let content = gen_content(*id as u64, *len as usize);
+            let tail = (*tail as usize).min(content.len());
+            let head = content.len() - tail;
+            let scratch = Scratch::new("c18b");
+            let cas = Cas::<u64>::open(scratch.db(), cfg_n(100, false)).map_err(|e| Fail::new("open-err", format!("{e:?}")))?;
+            let mut tx = cas.put(1).map_err(|e| Fail::new("op-err/put", format!("{e:?}")))?;
+            let mut off = 0usize;
+            let mut nchunks = 0usize;
+            let mut i = 0usize;
+            let mut calls = 0usize;
+            while off < head {
+                let want = if pattern.is_empty() { head } else { pattern[i % pattern.len()] as usize };
+                i += 1;
+                // at most 20 000 write calls per case: tiny chunks give way to the rest of the head
+                let l = if calls > 20_000 { head - off } else { want.min(head - off) };
+                tx.write(&content[off..off + l]).map_err(|e| Fail::new("op-err/write", format!("{e:?}")))?;
+                calls += 1;
+                off += l;
+                if l > 0 {
+                    nchunks += 1;
+                }
+                if pattern.iter().all(|p| *p == 0) {
+                    break;
+                }
+            }
+            if off < head {
+                tx.write(&content[off..head]).map_err(|e| Fail::new("op-err/write", format!("{e:?}")))?;
+                nchunks += 1;
+            }
+            if tail > 0 {
+                tx.write(&content[head..]).map_err(|e| Fail::new("op-err/write", format!("{e:?}")))?;
+                nchunks += 1;
+            }
+            tx.finish().map_err(|e| Fail::new("op-err/finish", format!("{e:?}")))?;
+            let h = b3(&content);
+            match cas.read_index_state().get_item(&1) {
+                Some(i) if *i.blob_hash.as_bytes() == h && i.blob_size == content.len() as u64 => {}
+                other => fail!("ident/item", "content of {len} bytes in chunks cycling {pattern:?} + final chunk of {tail}: committed item {other:?}, expected hash {} size {}", &hexs(&h)[..12], content.len()),
+            }
+            match std::fs::read(scratch.db().join("cas").join(rel_path_of(&h))) {
+                Ok(d) if d == content => {}
+                Ok(d) => fail!("ident/file-bytes", "content of {len} bytes in chunks cycling {pattern:?} + {tail}: file holds {} other bytes", d.len()),
+                Err(e) => fail!("ident/file-missing", "content of {len} bytes in chunks cycling {pattern:?} + {tail}: no file at the derived path: {e}"),
+            }
+            if list_files(&scratch.db().join("cas")).len() != 1 {
+                fail!("ident/extra-files", "more than one file under cas/ after a single put");
+            }
+            match cas.get(&1) {
+                Ok(Some(b)) if b[..] == content[..] => {}
+                other => fail!("ident/read-back", "get after the put returns {:?}", other.map(|o| o.map(|b| b.len()))),
+            }
+            if nchunks >= 2 {
+                m.nontrivial.push(hash_json(case));
+            }
+            m.class(if *len >= 131_072 { "big_ge_128k" } else if *len > 8192 { "big_gt_8k" } else { "big_small" });
+            if *len >= 131_072 && tail > 0 && tail < 8192 {
+                m.class("big_ge_128k_short_last_chunk");
             }
         }
         C18Case::Path { hash } => {
@@ -1641,7 +2030,24 @@ pub fn run_c18_exhaustive(ctx: &Ctx, acc: &Mutex<Acc>) -> Option<Violation> {
     let items: Vec<C18Case> = hashes.into_iter().map(|h| C18Case::Path { hash: h.to_vec() }).collect();
     let v = enumerate(ctx, acc, "path-law", "C18X", items, c18_run);
     acc.lock().unwrap().exhaustive = false;
-    v
+    if v.is_some() {
+        return v;
+    }
+    // long contents: lengths around and far beyond every plausible internal threshold, cyclic chunk patterns
+    let cases = ctx.tier.scale(160, 10);
+    let strat = || {
+        let around = |b: u32| (0u32..3).prop_map(move |d| b + d - 1);
+        let len = prop_oneof![
+            2 => 0u32..20_000,
+            2 => prop_oneof![around(8192), around(16_384), around(65_536), around(131_072), around(262_144), around(524_288), around(1_048_576)],
+            3 => 20_000u32..400_000,
+            1 => 400_000u32..1_500_000,
+        ];
+        let chunk = prop_oneof![2 => 0u32..20, 3 => 1u32..9000, 1 => around(8192), 1 => around(65_536), 1 => around(131_072), 1 => 10_000u32..300_000];
+        let tail = prop_oneof![2 => Just(0u32), 3 => 1u32..8192, 1 => around(8192), 2 => 8192u32..200_000];
+        (len, any::<u8>(), vec(chunk, 0..4), tail).prop_map(|(len, id, pattern, tail)| C18Case::Big { len, id, pattern, tail })
+    };
+    campaign(ctx, acc, "long-contents", "C18X", cases, 100, |_| strat(), c18_run)
 }
 
 pub fn replay_c18x(case: serde_json::Value) -> R<CaseMeta> {
